@@ -555,16 +555,18 @@ func init() {
 		}
 		fmt.Fprintf(w, "  Definition structs : list xstruct := %s.\n", coqList(names))
 		fmt.Fprintf(w, "  Definition root : list Z := %s. (* %s *)\n", CoqStr(root), root)
-		// the constructor NewIndexMapping()
-		ctor := "(XDUnknown " + CoqStr("NewIndexMapping not found") + ")"
-		if fd := c.FindFunc(mappingDir, "", "NewIndexMapping"); fd != nil && fd.Body != nil {
-			if cl, _ := x.structLit(fd); cl != nil {
-				ctor = x.dfltLit(cl, x.fileOf(fd), mappingDir, 0)
+		// the constructors whose literals state what an absent key means
+		for _, ct := range [][2]string{{"NewIndexMapping", "new_index_mapping"}, {"NewDocumentMapping", "new_document_mapping"}} {
+			ctor := "(XDUnknown " + CoqStr(ct[0]+" not found") + ")"
+			if fd := c.FindFunc(mappingDir, "", ct[0]); fd != nil && fd.Body != nil {
+				if cl, _ := x.structLit(fd); cl != nil {
+					ctor = x.dfltLit(cl, x.fileOf(fd), mappingDir, 0)
+				}
+			} else {
+				x.errf("%s not found", ct[0])
 			}
-		} else {
-			x.errf("NewIndexMapping not found")
+			fmt.Fprintf(w, "  Definition %s : xdflt :=\n    %s.\n", ct[1], ctor)
 		}
-		fmt.Fprintf(w, "  Definition new_index_mapping : xdflt :=\n    %s.\n", ctor)
 		// the package-level switch that turns unknown keys into errors
 		strict := "(XDUnknown " + CoqStr("MappingJSONStrict not found") + ")"
 		if v, vf := x.valueExpr(mappingDir, "MappingJSONStrict"); v != nil {
